@@ -297,6 +297,9 @@ func handleHotRestart(s *Session, hdr header, buf []byte) (int, bool, error) {
 	}
 	epochID := binary.BigEndian.Uint64(buf[:epochIDLen])
 	s.logger.warnf("%s [epoch:%d] receive hot restart", s.sessionName(), epochID)
+	if s.manager == nil {
+		return headerSize + epochIDLen, false, errors.New("receive hot restart event, but the session is not managed by a SessionManager")
+	}
 
 	s.dispatcher.post(func() {
 		s.manager.handleEvent(typeHotRestart, &sessionManagerHotRestartParams{epoch: epochID, session: s})
@@ -311,6 +314,9 @@ func handleHotRestartAck(s *Session, hdr header, buf []byte) (int, bool, error) 
 	}
 	epochID := binary.BigEndian.Uint64(buf[:epochIDLen])
 	s.logger.warnf("%s [epoch:%d] receive hot restart ack", s.name, epochID)
+	if s.listener == nil {
+		return headerSize + epochIDLen, false, errors.New("receive hot restart ack event, but the session is not owned by a Listener")
+	}
 
 	s.listener.mu.Lock()
 	defer s.listener.mu.Unlock()
